@@ -228,6 +228,21 @@ func runHistory(rc *harness.RunCtx, cfg *Config, ops []sim.Op, faults []sim.Faul
 			uncertain = dropInts(uncertain, op.B)
 		}
 		if faulted && op.Kind == "recv" && r.Err != nil {
+			// first look at what the refused upload left behind: whatever it
+			// is, every view of the store must agree on it (no blob that
+			// stat/fetch show and enumerate does not, or vice versa)
+			for _, pop := range []sim.Op{{Kind: "stat", B: op.B}, {Kind: "fetch", B: op.B}, {Kind: "enum", Limit: 100000}, {Kind: "stat", B: op.B}} {
+				pr, herr := s.do(ctx, pop)
+				if herr != nil {
+					res.viol = fmt.Sprintf("%s after the refused upload never returned (%v)", pop.String(), herr)
+					res.class, res.opIdx, res.hang = "hang-after", i, true
+					return res
+				}
+				if v := s.model.Check(pop, pr, false); len(v) > 0 {
+					res.viol, res.class, res.opIdx = "after the refused upload: "+v[0], "after-refusal:"+classOf(v[0]), i
+					return res
+				}
+			}
 			// what a client does after a refused upload: try again. The
 			// failure was transient, so the retry must be served like any
 			// other receive, and its acknowledgement counts.
